@@ -711,13 +711,32 @@ func wordy(r byte) bool {
 	return r == '_' || r == '$' || (r >= '0' && r <= '9') || (r >= 'a' && r <= 'z') || (r >= 'A' && r <= 'Z') || r >= 0x80
 }
 
+// c11AnySpace: the shape of lexer.acceptWord found in the source by the translator (driver stage `(acceptword)`):
+// true = `not` and `in` may be separated by any white space and `in` ends at any non-alphanumeric rune.
+var c11AnySpace bool
+
+func c11InitAcceptWord(c *Ctx) {
+	resp, err := c.AskAll([]string{"(acceptword)"})
+	if err != nil {
+		c.R.Mismatch("driver", "acceptword", err.Error(), "")
+		return
+	}
+	m, perr := ParseSx(resp[0])
+	if perr != nil || m.Tag() != "acceptword" || len(m.List) != 2 {
+		c.R.Mismatch("driver", "acceptword", resp[0], "(acceptword <anySpace>)")
+		return
+	}
+	c11AnySpace = m.List[1].Atom == "true"
+	c.R.Note("lexer.acceptWord shape derived from the source: anySpace=%v", c11AnySpace)
+}
+
 func needSpace(a, b string) bool {
 	la, fb := a[len(a)-1], b[0]
 	if wordy(la) && wordy(fb) {
 		return true
 	}
-	if a == "not in" {
-		return true // the lexer requires a U+0020 or the end of input after `in` (Appendix B)
+	if a == "not in" && !c11AnySpace {
+		return true // old acceptWord: the lexer requires a U+0020 or the end of input after `in` (Appendix B)
 	}
 	if len(a) == 1 && strings.IndexByte("&|!=*<>", la) >= 0 && strings.IndexByte("&|=*", fb) >= 0 {
 		return true
@@ -754,11 +773,11 @@ func (c *Ctx) layout(toks []string, mode int) string {
 					b.WriteByte(' ')
 				}
 			default: // random
-				if toks[i-1] == "not in" {
+				if toks[i-1] == "not in" && !c11AnySpace {
 					b.WriteByte(' ')
 				}
 				if ns || c.Rng.Intn(2) == 0 {
-					if !(toks[i-1] == "not in") || c.Rng.Intn(2) == 0 {
+					if !(toks[i-1] == "not in") || c11AnySpace || c.Rng.Intn(2) == 0 {
 						b.WriteString(spaces[c.Rng.Intn(len(spaces))])
 					}
 				}
@@ -766,7 +785,13 @@ func (c *Ctx) layout(toks []string, mode int) string {
 		} else if mode == 2 && c.Rng.Intn(3) == 0 {
 			b.WriteString(spaces[c.Rng.Intn(len(spaces))])
 		}
-		b.WriteString(t)
+		if t == "not in" && mode == 2 && c11AnySpace {
+			// fixed acceptWord: any non-empty run of white space between the two words
+			b.WriteString("not" + spaces[c.Rng.Intn(len(spaces))] + "in")
+			c.R.Count("layout:not-in-any-space", 1)
+		} else {
+			b.WriteString(t)
+		}
 	}
 	if mode == 2 && c.Rng.Intn(3) == 0 {
 		b.WriteString(spaces[c.Rng.Intn(len(spaces))])
@@ -995,6 +1020,8 @@ func (c *Ctx) oracleCheck(t ast.Node, pr *printer, mode int, what string) (strin
 func runC11(c *Ctx) {
 	r := c.R
 	r.Rule = "correspondence: all token sequences up to length n over 7 alphabets (operators, brackets, identifiers, literals; n = 4-5 quick, 5-7 thorough), printed random trees and token-mutated printed trees, Lean model vs parser.Parse on tree with locations / error position, and parser.Parse vs an independent stratified-grammar reference parser (accept/reject and tree) on the same inputs; Lean print vs the Go reference printer token by token; oracle: exhaustive trees of height <= 3 over one operator per precedence level and random canonical trees of height <= 6 over all node forms, printed by the documented omission rule with minimal / full / random parentheses and canonical / tight / random whitespace, parser.Parse(print t) = t ignoring locations; non-trivial = more than one token; distinct by source text"
+
+	c11InitAcceptWord(c)
 
 	// ---- (i) exhaustive token sequences
 	type alpha struct {
